@@ -7,8 +7,11 @@ KINDS = ['A', 'B', 'C', 'D', 'Z', 'G', 'X']
 LAYOUTS = ['natural', 'flush', '4']
 
 
-def mklink(kind, pos, layout):
+def mklink(kind, pos, layout, hiserial=False):
     serial = 1000 + pos * 37 + KINDS.index(kind) if kind in KINDS else 5000 + pos
+    if hiserial:
+        # serial numbers with the top bit set (stored sign-extended by the library): 0x80000000.., 0xfffffff0..
+        serial = -(1 << 31) + pos * 37 + KINDS.index(kind) if pos % 2 == 0 else -16 + pos
     if kind == 'X':
         return zoo.multiplexed('A', serial, layout if layout != 'natural' else '3', fserial=9000 + pos)
     if kind == 'G' and layout == 'natural':
@@ -45,6 +48,11 @@ def run(tier):
             links = [mklink(kind, pos, lay) for pos, (kind, lay) in enumerate(zip(seq, lays))]
             cases.append('s 0 ' + ' '.join(spec(p, m) for p, m in links))
             meta.append((seq, list(lays)))
+    # serial numbers >= 2^31 in every position of short chains
+    for seq in itertools.product(['A', 'B', 'D', 'Z'], repeat=3):
+        links = [mklink(kind, pos, 'natural' if kind != 'A' else '3', hiserial=True) for pos, kind in enumerate(seq)]
+        cases.append('s 0 ' + ' '.join(spec(p, m) for p, m in links))
+        meta.append((seq, ['hiserial'] * 3))
     # large links: CHUNKSIZE=65536 switches the open-time scans to real bisection / backward hops
     big = ['A', 'M', 'N']
     for seq in itertools.product(big, repeat=3):
